@@ -71,13 +71,13 @@ def tie_forward(ctx):
             k += 1
             square = (g["kH"], g["sH"], g["pH"], g["dH"]) == (g["kW"], g["sW"], g["pW"], g["dW"])
             P = cc.make_payload(rng, op, g, bias=(k % 2 == 0), form="int" if (square or k % 3 == 0) else "tuple",
-                                data="distinct" if k % 2 else "ints", layout=("C", "F", "C", "S")[(k // 5) % 4])
+                                data="distinct" if k % 2 else "ints", layout=cc.LAYOUTS[(k // 5) % 8])
             obs = _observe(P)
             bag.add(P, cc.term_forward(P, obs), (op,) + cc.descr2(g), cc.nontrivial2(g), cc.oracle_forward(P, obs))
     for g in g1:
         for op in OPS1:
             k += 1
-            P = cc.make_payload(rng, op, g, bias=(k % 2 == 0), data="distinct" if k % 2 else "ints", layout=("C", "F", "C", "S")[(k // 3) % 4])
+            P = cc.make_payload(rng, op, g, bias=(k % 2 == 0), data="distinct" if k % 2 else "ints", layout=cc.LAYOUTS[(k // 3) % 8])
             obs = _observe(P)
             bag.add(P, cc.term_forward(P, obs), (op, g["k"], g["s"], g["p"], g["d"], g["W"]), cc.nontrivial1(g), cc.oracle_forward(P, obs))
     ctx.sample({"forward_case": bag.payloads[7], "implementation_output": cc.tolist(_observe(bag.payloads[7])[1])})
@@ -522,42 +522,44 @@ def tie_misc(ctx):
                         verdicts.append((len(payloads) - 1, {"expected": {"running_mean": trm.numpy().tolist(), "running_var": trv.numpy().tolist()},
                                                               "observed": {"running_mean": np.array(res[1]).tolist(), "running_var": np.array(res[2]).tolist()},
                                                               "note": "running statistics after one training step differ from torch"}))
-    # BatchNorm layers over a short history: running statistics after every training batch (float momentum and momentum=None =
-    # cumulative average), then the eval-mode forward; exact for the running mean while the factor is dyadic, torch.nn for the rest
+    # BatchNorm layers over a history that interleaves training and eval forwards (validation passes between training steps):
+    # num_batches_tracked and the running statistics after every forward, for a float momentum and momentum=None (cumulative average);
+    # exact (Coq) for the counter and for the running mean while the factor is dyadic, torch.nn for outputs and all statistics
+    seq = "TETETTE" if ctx.quick else "TETETTEETTTE"
     for cls, shape in (("BatchNorm1d", (4, 2)), ("BatchNorm1d", (2, 2, 2)), ("BatchNorm2d", (2, 2, 2, 2)), ("BatchNorm1d", (8, 3))):
-        for momentum in (0.25, None, 0.5):
+        for momentum in (0.1, None, 0.25, 0.5):
             Cb = shape[1]
             layer = getattr(nn, cls)(Cb, momentum=momentum, dtype=np.float64)
             tl = getattr(torch.nn, cls)(Cb, momentum=momentum, dtype=torch.float64)
-            layer.train(); tl.train()
-            hist = []
-            for t in (1, 2, 3):
+            for t, mode in enumerate(seq, 1):
+                training = mode == "T"
+                (layer.train if training else layer.eval)(); (tl.train if training else tl.eval)()
                 xb = dyadic(rng, shape, 4, -16, 16)
+                n0 = int(layer.num_batches_tracked)
                 rm0 = np.array(layer.running_mean.data, dtype=np.float64).copy()
                 rv0 = np.array(layer.running_var.data, dtype=np.float64).copy()
                 out = np.array(layer(cc.T(xb)).data, dtype=np.float64)
                 tout = tl(torch.tensor(xb)).detach().numpy()
+                n1 = int(layer.num_batches_tracked)
                 rm1 = np.array(layer.running_mean.data, dtype=np.float64); rv1 = np.array(layer.running_var.data, dtype=np.float64)
-                P = {"op": cls, "momentum": momentum, "step": t, "x": xb.tolist(), "running_mean_before": rm0.tolist(), "running_var_before": rv0.tolist()}
-                factor = momentum if momentum is not None else 1.0 / t
-                chans = [np.moveaxis(xb, 1, 0)[c].ravel() for c in range(Cb)]
-                if t <= 2:
-                    term = " && ".join("Qeq_bool (fst (bn_running %s %s %s %s)) %s" % (qlit(factor), qlit(rm0[c]), qlit(rv0[c]), qlist(chans[c]), qlit(rm1[c])) for c in range(Cb))
-                else:
-                    term = "true"
+                P = {"op": cls, "momentum": momentum, "history": seq[:t], "x": xb.tolist(), "num_batches_tracked_before": n0,
+                     "running_mean_before": rm0.tolist(), "running_var_before": rv0.tolist()}
+                term = "(bn_tracked %s %d =? %d)%%Z" % (cb(training), n0, n1)
+                factor = momentum if momentum is not None else (1.0 / n1 if n1 else 1.0)
+                exact = (not training) or factor in (1.0, 0.5, 0.25, 0.125)
+                if exact and all(Fraction(float(v)).denominator <= 2 ** 40 for v in rm0):
+                    chans = [np.moveaxis(xb, 1, 0)[c].ravel() for c in range(Cb)]
+                    mom = "None" if momentum is None else "(Some %s)" % qlit(momentum)
+                    term += " && " + " && ".join("Qeq_bool (bn_layer_mean %s %s %d %s %s %s) %s" % (
+                        mom, cb(training), n0, qlit(rm0[c]), qlit(rv0[c]), qlist(chans[c]), qlit(rm1[c])) for c in range(Cb))
                 terms.append(term); payloads.append(P)
-                ok = cc.close(out, tout) and cc.close(rm1, tl.running_mean.numpy()) and cc.close(rv1, tl.running_var.numpy())
+                ok = cc.close(out, tout) and cc.close(rm1, tl.running_mean.numpy()) and cc.close(rv1, tl.running_var.numpy()) and n1 == int(tl.num_batches_tracked)
                 if not ok:
-                    verdicts.append((len(payloads) - 1, {"expected": {"running_mean": tl.running_mean.numpy().tolist(), "running_var": tl.running_var.numpy().tolist()},
-                                                          "observed": {"running_mean": rm1.tolist(), "running_var": rv1.tolist()},
-                                                          "note": "%s(momentum=%s): output / running statistics after training batch %d differ from torch.nn" % (cls, momentum, t)}))
-            layer.eval(); tl.eval()
-            xe = dyadic(rng, shape, 4, -16, 16)
-            out = np.array(layer(cc.T(xe)).data, dtype=np.float64)
-            tout = tl(torch.tensor(xe)).detach().numpy()
-            terms.append("true"); payloads.append({"op": cls, "momentum": momentum, "step": "eval", "x": xe.tolist()})
-            if not cc.close(out, tout):
-                verdicts.append((len(payloads) - 1, {"expected": cc.tolist(tout), "observed": cc.tolist(out), "note": "%s(momentum=%s) eval-mode forward after three training batches differs from torch.nn" % (cls, momentum)}))
+                    verdicts.append((len(payloads) - 1, {"expected": {"running_mean": tl.running_mean.numpy().tolist(), "running_var": tl.running_var.numpy().tolist(),
+                                                                       "num_batches_tracked": int(tl.num_batches_tracked), "output": cc.tolist(tout)},
+                                                          "observed": {"running_mean": rm1.tolist(), "running_var": rv1.tolist(), "num_batches_tracked": n1, "output": cc.tolist(out)},
+                                                          "note": "%s(momentum=%s) after the forwards %s (T = training, E = eval): output / running statistics / num_batches_tracked differ from torch.nn"
+                                                                  % (cls, momentum, seq[:t])}))
     files = []
     CH = 250
     for k in range(0, len(terms), CH):
@@ -574,7 +576,7 @@ def tie_misc(ctx):
             mism += [{"case": k + i, "input": payloads[k + i]} for i in lists[0]]
     ctx.tie("nn/activations+losses+linear+batchnorm statistics", "correspondence", len(terms), len(terms), mism,
             note="relu, leaky_relu (dyadic slopes), MSELoss/NLLLoss x {mean,sum,none}, linear with/without bias, batch_norm_forward mean/var in "
-                 "training/eval x running statistics given/absent, BatchNorm1d/2d layers over three training batches + eval (momentum 1/4, 1/2, None); dyadic data, exact rationals compared in Coq; normalised output and running statistics "
+                 "training/eval x running statistics given/absent, BatchNorm1d/2d layers over a history interleaving training and eval forwards (momentum 0.1, 1/4, 1/2, None); dyadic data, exact rationals compared in Coq; normalised output and running statistics "
                  "additionally against torch (tolerance 1e-9: sqrt and n/(n-1) are not exact)")
     for i, v in verdicts[:3]:
         ctx.witness("nn." + payloads[i]["op"], "forward-value", payloads[i], v["expected"], v["observed"], v.get("note", ""))
